@@ -7,6 +7,7 @@ import IbcVerif.Driver.Height
 import IbcVerif.Driver.Commit
 import IbcVerif.Driver.Keys
 import IbcVerif.Driver.Ident
+import IbcVerif.Driver.Delay
 open Lean
 namespace IbcVerif.Driver.Pure
 open IbcVerif.J
@@ -16,6 +17,7 @@ def handlers : List (String → Json → Option (Except String Json)) :=
   , IbcVerif.Driver.Commit.handle
   , IbcVerif.Driver.Keys.handle
   , IbcVerif.Driver.Ident.handle
+  , IbcVerif.Driver.Delay.handle
   ]
 
 def handle (f : String) (j : Json) : Except String Json :=
